@@ -144,3 +144,73 @@ def gather_extract(R, prog, P):
                    ev.arg_path(1) is not None and ('G:%s=T' % ev.arg_path(1)) in st,
                    key_fn=lambda ev, nm=nm: '%s.K6:iovector::extract_%s_continuous:copy-only-if-enough-and-allocated' % (P, nm),
                    describe=lambda ev: 'the gather copy runs only if the vector holds >= bytes and the buffer was allocated', min_sites=1, what='extract(bytes, buf)')
+
+
+def flexqueue_geometry(R, prog, P):
+    """K10: FlexQueue allocates (and zeroes) as many slots as the ring header indexes.  required_space(c) multiplies the slot size by
+    the same capacity expression that LockfreeRingQueueBase(size_t c) stores in `capacity` (which also gives `mask`): if the two disagree,
+    pushes reach slots outside the allocation."""
+    ctors = [f for f in prog.funcs.values() if re.search(r'LockfreeRingQueueBase<.*>::LockfreeRingQueueBase$', f.name) and f.kind == 'ctor' and len(f.j['params']) == 1 and f.blocks]
+    rs = [f for f in prog.funcs.values() if f.nname.endswith('FlexQueue::required_space') and f.blocks]
+    if not ctors or not rs:
+        R.broken.append('%s: FlexQueue::required_space / LockfreeRingQueueBase(size_t) not instantiated in the analysed unit' % P)
+        return
+    c, r = ctors[0], rs[0]
+    cap_init = None
+    for b in c.blocks.values():
+        for ev in b['ev']:
+            if ev['e'] == 'init' and ev.get('name') == 'capacity':
+                cap_init = ev['x']
+    if cap_init is None:
+        R.broken.append('%s: LockfreeRingQueueBase(size_t) no longer initialises `capacity`' % P)
+        return
+    norm = lambda f, i: re.sub(r'(?<![\w.>])%s(?!\w)' % re.escape(K.param(f, 0)), '$c', f.show(i))
+    want = norm(c, cap_init)
+    # the slot count in required_space: the factor multiplied with sizeof(slot), through single-assignment locals
+    got = None
+    for i, e in enumerate(r.exprs):
+        if e['k'] == 'binop' and e['op'] == '*' and e.get('cv') is None:
+            for side in (e['l'], e['r']):
+                x = r.x(r.skip(side))
+                if x is not None and x['k'] == 'ref' and r.decls[x['decl']]['kind'] == 'local':
+                    vi = r.value_init(x['decl'])
+                    if vi is not None and vi >= 0:
+                        got = norm(r, vi)
+                elif x is not None and x['k'] not in ('lit', 'sizeof') and r.const(side) is None and got is None:
+                    got = norm(r, side)
+    key = '%s.K10:FlexQueue::required_space:allocates-the-capacity-the-ring-indexes' % P
+    (R.held if got == want else R.violated)(P + '.K10', key, r.id, '%s:%d' % (r.file, r.line),
+                                             'slot count allocated = %s ; capacity indexed by the ring = %s' % (got, want))
+
+
+def expired_sleepers(R, prog, P):
+    """K2/K6 (shared by C04 and C05): the expiry pass of resume_threads_inlined() pops a sleeper with its thread lock held and makes it
+    READY only if it is still SLEEPING under that lock - a sleeper interrupted from another vCPU meanwhile is STANDBY and already
+    linked in the standby queue; re-linking it into the run queue duplicates or loses threads."""
+    G = K.build(R, prog, 'photon::resume_threads_inlined')
+    res = an.run(G, [an.LockTracker(), an.GuardTracker(lambda k: True)])
+    K.check_at(R, P + '.K2', G, res, lambda ev: ev.kind == 'call' and ev.callee() == 'photon::SleepQueue::pop_front',
+               require=lambda st, ev: any(x.endswith('->lock') for x in an.held(st)),
+               key_fn=lambda ev: P + '.K2:photon::resume_threads_inlined:pop_front-under-thread-lock',
+               describe=lambda ev: 'expired sleeper popped with its thread lock held', min_sites=1, what='pop_front')
+    K.check_at(R, P + '.K6', G, res, lambda ev: ev.kind == 'call' and ev.callee() == 'photon::thread::dequeue_ready_atomic',
+               require=lambda st, ev: any(re.match(r'^G:\w+->state == 2=T$', x) for x in st),
+               key_fn=lambda ev: P + '.K6:photon::resume_threads_inlined:dequeue-only-if-still-sleeping',
+               describe=lambda ev: 'expired sleeper made READY only if still SLEEPING under its lock (not concurrently interrupted)', min_sites=1, what='dequeue_ready_atomic')
+
+
+def wait_all_covers_every_queue(R, prog, P):
+    """K6: wait_all() (used by vcpu_fini) returns only when the vCPU has nothing left in ANY of its three queues - run queue, sleep
+    queue and standby queue (threads handed over by other vCPUs: migration, cross-vCPU wake-ups).  A queue left out loses its threads."""
+    f = prog.find('photon::wait_all', sig='RunQ')
+    G = K.build_f(R, prog, f)
+    res = an.run(G, [an.GuardTracker(lambda k: True, pure={'photon::AtomicRunQ::size_1or2', 'photon::SleepQueue::empty', 'photon::vcpu_t::standbyq_t::empty'})])
+    def all_empty(st, ev):
+        keys = [k for k in st if k.endswith('=T')]
+        sq = any(re.search(r'sleepq[\w.>()-]*\.empty\(\)=T$', k) or re.search(r'sleepq\.empty\(\)=T$', k) for k in keys)
+        bq = any(re.search(r'standbyq[\w.>()-]*\.empty\(\)=T$', k) or re.search(r'standbyq\.empty\(\)=T$', k) for k in keys)
+        rq = any('size_1or2()' in k for k in keys)
+        return sq and bq and rq
+    K.check_at(R, P + '.K6', G, res, lambda ev: ev.kind == 'return' and ev.depth == 0, all_empty,
+               key_fn=lambda ev: P + '.K6:photon::wait_all:returns-only-when-run-sleep-and-standby-queues-are-empty',
+               describe=lambda ev: 'wait_all() returns only after the run queue (1-2 threads), the sleep queue and the standby queue were all seen empty', min_sites=1, what='return')
